@@ -14,18 +14,18 @@ from .c19 import _json_eq, make_output, out_specs
 
 ID = "C20"
 LEVEL = "fault_enumeration"
-MODES = ("kill", "torn", "interrupt")
+MODES = ("kill", "torn", "interrupt", "ioerror")
 RULE = ("Hypothesis draws a file history (0..4 earlier runs, matrices 1x1 .. 40x20, NaN and non-JSON metadata included) and one new "
         "save; a dry run under the I/O interceptor (vp/faults.py: open / write / flush / close / truncate / replace / rename / fsync / "
         "remove on paths in the results directory) numbers the E I/O events of that save; then EVERY crash point k in 0..E (all of "
-        "them when E <= 400, otherwise both ends and 200 interior points) is executed in three modes: kill (forked child, os._exit "
+        "them when E <= 400, otherwise both ends and 200 interior points) is executed in four modes: kill (forked child, os._exit "
         "at event k, user-space buffers lost), torn (half of the chunk of a write event reaches the OS, then exit), interrupt "
-        "(KeyboardInterrupt at event k, normal unwinding). Half of the cases place the results directory on a different file system than the process's scratch directory (tempfile.gettempdir(); /dev/shm here), so that a temporary file created 'somewhere' cannot be renamed into place. Oracle after each fault: the bytes of data.json are exactly the previous "
+        "(KeyboardInterrupt at event k, normal unwinding), ioerror (the interruption arrives as TimeoutError, an OSError subclass, at event k - reads of the previous file included). Half of the cases place the results directory on a different file system than the process's scratch directory (tempfile.gettempdir(); /dev/shm here), so that a temporary file created 'somewhere' cannot be renamed into place. Oracle after each fault: the bytes of data.json are exactly the previous "
         "bytes (or the file is still absent) or the complete new content; the file parses and get_outputs_from_file returns all "
         "earlier runs unchanged; a subsequent un-faulted save of the same run yields previous + new. Non-trivial: crash strictly "
         "between the first and last I/O event of a save onto a file that already holds >= 1 run; distinct = (history hash, k, mode).")
 LEVEL_TEXT = ("Fault enumeration: for each generated (history, new run) every I/O event of the save is a crash point and all are "
-              "executed (exhaustive per case for E <= 400) in three failure modes, with the previous/new file contents as oracle. "
+              "executed (exhaustive per case for E <= 400) in four failure modes, with the previous/new file contents as oracle. "
               "The for-all over histories is explored.")
 LEVEL_NOTE = ("Process death is modelled at the Python I/O call boundary (where this code's behaviour is decided; an extra crash point right after every open-for-write, descriptor-level copies intercepted) plus torn writes; "
               "power loss / fsync durability and non-atomic rename across file systems are not observable here and not claimed. "
@@ -133,11 +133,11 @@ def check_case(case: dict) -> Result:
                 shutil.copytree(root / "tmpl", work)
                 path = work / "data.json"
                 where = f"{mode} at event {k}/{E} ({log[k] if k < len(log) else 'after last event'})"
-                if mode == "interrupt":
+                if mode in ("interrupt", "ioerror"):
                     try:
-                        with Injector(str(work), k, "interrupt"):
+                        with Injector(str(work), k, mode):
                             save_json(path, new_name, make_output(new_spec))
-                    except KeyboardInterrupt:
+                    except (KeyboardInterrupt, TimeoutError):
                         pass
                 else:
                     pid = os.fork()
@@ -233,4 +233,4 @@ def run_shard(spec: dict, ctx: Ctx) -> None:
         return res
     ctx.run_given(cases(spec["small"]), check, spec["examples"], shrink=False, sample_of=_sample)
     ctx.extra["crash_points_executed"] = total["n"]
-    ctx.extra["exhaustive_parts"] = ["every I/O crash point of each drawn save (all when E<=400) x {kill, torn, interrupt}"]
+    ctx.extra["exhaustive_parts"] = ["every I/O crash point of each drawn save (all when E<=400) x {kill, torn, interrupt, ioerror}"]
